@@ -112,7 +112,18 @@ class BaseRenderer(object):
     def __enter__(self):
         """
         Make renderer classes into context managers.
+
+        The custom tokens were added to the parsing process when the renderer
+        was constructed; an earlier __exit__ of this instance has taken them
+        out again, so entering once more puts back those that are missing.
         """
+        for token in getattr(self, '_extras', ()):
+            if issubclass(token, span_token.SpanToken):
+                token_module = span_token
+            else:
+                token_module = block_token
+            if token not in token_module._token_types:
+                token_module.add_token(token)
         return self
 
     def __exit__(self, exception_type, exception_val, traceback):
